@@ -30,7 +30,11 @@ disabled_never_computed auto_iff auto_iff_of_flag auto_error_iff atomic_requires
 error_iff error_small no_other_errors'''.split()
 THEOREMS = ['FFVerif.C03a.' + t for t in THEOREMS_A] + ['FFVerif.C03c.' + t for t in THEOREMS_C] \
     + ['FFVerif.C03d.' + t for t in THEOREMS_D]
-LEAN_MODULES = ['FFVerif.Props.C03a', 'FFVerif.Props.C03c', 'FFVerif.Props.C03d', 'FFVerif.Props.C04Tile']
+LEAN_MODULES = ['FFVerif.Props.C03a', 'FFVerif.Props.C03c', 'FFVerif.Props.C03d', 'FFVerif.Props.C04Tile',
+                'FFVerif.Props.C04TileUnique']
+# module C04TileUnique: concatenation = from scratch for an arbitrary own eigh output of the sequenced pulse
+THEOREMS = THEOREMS + [
+    'FFVerif.C04Tile.ofDiag_cm_eigh_independent', "FFVerif.C04Tile.concat_cm_eq_diag_from_scratch'", 'FFVerif.C01.cm_eigh_independent']
 # module C04Tile: Hamiltonian, times, propagators and total (Liouville) propagator of the sequenced pulse =
 # ordered product of the inputs' (what concatenate stores), for any number of pulses
 THEOREMS = THEOREMS + [
